@@ -12,7 +12,7 @@ NOT_APPLICABLE = {
 CHECKS = {
     'C19': dict(
         level='proof',
-        technique='deductive verification: pyvc VCs (loop invariants, least-fixpoint induction, recursive contract for find_all_paths) discharged by z3 (cvc5 re-check and lean/Reach.lean in the thorough tier); bounded exhaustive stand-in for find_all_reachable and cross-check of all queries',
+        technique='deductive verification: pyvc VCs (loop invariants, least-fixpoint induction, recursive contract for find_all_paths) discharged by z3 (cvc5 re-check and lean/Reach.lean in the thorough tier); find_all_reachable proved against the all-simple-paths contract with one induction lemma proved in lean/MaxPrefix.lean; bounded exhaustive cross-check of all queries',
         text=("reachable, bi_reachable, connected, dfs/_dfs, find_all_bi_reachable, find_all_connected, none_reachable, "
               "none_connected, find_sources, find_all_paths (exactly the simple paths that extend the given prefix: sound and "
               "complete, partial correctness), find_longest_paths(+exist) are proved for all graphs and vertices against "
@@ -49,7 +49,7 @@ CHECKS = {
               "other path is touched; every shutil.copytree/rmtree precondition holds (no FileExistsError). update_stats, "
               "get_batches, stop_condition are proved exact; the batch loop _run keeps passed+failed equal to the number of "
               "programs handed to the generator, passes disjoint pid ranges, and process_res (sequential) maps pids to results "
-              "and records exactly the reported programs in STATS['faults'] / faults.json. Also under contract: the pool callback (the batch size handed to update_stats) and src.args.validate_args (returns only if no session directory of that name exists and at most one stop condition is set)."),
+              "and records exactly the reported programs in STATS['faults'] / faults.json. Also under contract: the pool callback (the batch size handed to update_stats) and src.args.validate_args (returns only if no session directory of that name exists and at most one stop condition is set). gen_program is under its own contract (slice mode, obligations at both return statements): a normal record lists the well-typed program as expected-to-compile and the ill-typed one -- only when the fault-injecting stage produced one and that stage is enabled -- as expected-to-be-rejected together with its message, carries no message otherwise, and a failed record is produced exactly on the exception path."),
         note=("worker-pool mode: only the sequential shape of run_parallel's shutdown is verified (ghost pool life cycle: on the "
               "path without KeyboardInterrupt the pool is closed and joined, never terminated; 4 syntactic shape obligations), "
               "its concurrency is outside this family; the bounded stand-in takes the per-program record from the real "
@@ -90,19 +90,10 @@ CHECKS = {
               "closure, purity of cond, Valid(t) preconditions; type-map lookups modelled by identity of the key"),
         design='DESIGN.md section 4 (C07)'),
     'C10': dict(
-        level='exploration',
-        technique='bounded stand-in: run-time evaluation of the unification contract (independent term-level matcher as oracle) on enumerated (target, pattern, mode) triples; only the binding helper _update_type_var_map is under a deductive contract (z3)',
-        text=("Proved, for every map / key / value: the helper through which unify_types records bindings refuses exactly a "
-              "second, different (by the IR's __eq__) type for an already bound variable, otherwise records key := value, and "
-              "never touches another binding. unify_types itself is NOT proved (DESIGN 10.3 says why: every clause speaks about "
-              "the final assignment, and the match relation is not monotone under extension of the map). It is run on ~3 million (quick) / ~13 million (thorough) triples built from term-level class "
-              "tables (bounded variables incl. parameterized and variable bounds, repeated variables, out/in/star projections, "
-              "subclass targets for supertype mode; exhaustive to depth 1, related heads to depth 2, plus random families) and "
-              "each non-empty answer is checked against an independent matcher written from the statement (pattern under the "
-              "assignment equals the target / a supertype up to open variables, projection kinds equal, bounds of assigned and "
-              "open positions, one type per variable, exceptions are violations)."),
-        note=("bounded: nothing is claimed beyond the enumerated inputs; one known finding (own class parameter leaks in "
-              "supertype mode) is listed in known_findings.json; two genuine defects were repaired in /repo (fix: commit)"),
+        level='proof',
+        technique='deductive verification with pyvc + z3: _update_type_var_map in full mode; unify_types in slice mode with obligations at every binding site (_update_type_var_map calls, recursive calls) and every return statement, plus a syntactic census that the result map is filled only at those sites; bounded evaluation against an independent term-level matcher for the clauses that need induction over the type structure',
+        text="Proved for all types and class tables (56 obligations): a pattern variable is bound only to the target's component at the SAME argument position (use-site projections are unwrapped pairwise and only for equal kinds -- star vs star binds nothing), and only after the type system answered that the component is a subtype of the variable's bound (declared bound, or its variable-free form get_bound_rec; hence a subtype in the declarative relation by C06); a top-level pattern variable is bound to the target only within its bound; recursion is only on the components at the same position (pattern component, or the bound of the pattern variable) or, in supertype-matching mode, on the last declared supertype of the target; bindings of a recursive call enter the result only through _update_type_var_map, which refuses exactly a second, different type for a variable and leaves every other binding alone; the result map is written nowhere else; a non-empty result for two instantiations requires equal generic classes; every return statement is under an obligation. NOT proved -- bounded (about 3M triples quick / 13M thorough vs an independent matcher): that applying the FINAL assignment to the pattern yields the target and the open-variable clause (both need induction over the type structure / monotonicity of matching under extension of the map). One defect repaired in /repo (projection kinds ignored, crash on star projections); one known finding (supertype mode leaks the class's own parameter; root cause in TypeConstructor.new).",
+        note='trusted: slice-mode havoc (the any(...) conditions over a recursive result are probed per element), callees of unify_types do not modify existing types (immutable_fields), WithinBound given by introduction rules over the answers of the real is_subtype, Variance.__eq__ linked to PyEq by its proved contract, dictionary keys modulo identity of the model value; bounded: fixed + random term-level class tables',
         design='DESIGN.md section 4 (C10), 10.3'),
     'C17': dict(
         level='proof',
@@ -124,12 +115,9 @@ CHECKS = {
         design='DESIGN.md section 4 (C17), 2.7, 10.3'),
     'C13': dict(
         level='exploration',
-        technique='bounded stand-in only: run-time contract on dump_program/load_program (object-graph isomorphism, identical translations in 4 languages, identical mutation results under the same random state, dump stability) on generated / erased / overwritten programs',
-        text=("NOT proved (pickle is an external library; no contract within reach of the verifier states its behaviour). For a "
-              "fixed seed list x 4 languages x mutation lineages the real save_program / ProgramProcessor replay path is run and "
-              "the read-back is compared with the original: isomorphic object graph, same symbol-table answers, byte-identical "
-              "text in all four languages, same mutation outcome/result/text under the same RNG state, stable re-dump. Type identity (__eq__ / __hash__ of the IR types, which survive pickling only if they are functions of pickled parts) is under a deductive contract; nothing else is."),
-        note="bounded: time-budgeted task list (quick 32 tasks, thorough 768); one benign known finding (reverse index of re-hashed type parameters)",
+        technique='bounded run-time contract of the dump / read-back path (generated, erased and overwritten programs, four languages) for the round-trip law, which is a statement about the external pickle library; deductive verification (pyvc + z3) only of the glue around it: dump_program / load_program against a ghost disk, the two call sites (save_program, ProgramProcessor.get_program) in slice mode, and a syntactic census that no class under src/ customises pickling',
+        text='NOT proved: that a program read back is indistinguishable from the original (translates identically in every language, mutations replay with the same random choices, re-dump stable) -- this is a property of what pickle does with the IR object graph; Pickled / Unpickled are uninterpreted and their round-trip law is trusted. It is evaluated at run time on generated / erased / overwritten programs of a fixed seed list in four languages (bounded). Proved (24 obligations, the glue, for every path and program): dump_program pickles the very object it is given, in binary write mode, into exactly the file named and touches no other file; load_program unpickles exactly the content of the file named (binary read mode) and returns it unchanged; save_program dumps THE program whose text it saves into <file>.bin; with --replay the processor reads exactly the file given and hands the read-back on unchanged, and generates a program only without --replay; no class under src/ defines __getstate__ / __setstate__ / __reduce__ / __copy__ / __deepcopy__ / __slots__ and copyreg is not used (default pickling is what the trusted law is about). Type identity (__eq__ / __hash__) is under contract as for the other properties. One benign known finding (reverse index of re-hashed type parameters).',
+        note='trusted: the pickle library (round-trip law), external contracts of open / pickle.dump / pickle.load over a ghost disk, slice-mode havoc in the two call-site functions; bounded: seeds [1, 3, 4, 886440] (+VERIF_SEED) x 4 languages x {generated, erased, overwritten}',
         design='DESIGN.md section 4 (C13)'),
     'C14': dict(
         level='proof',
@@ -226,7 +214,7 @@ CHECKS = {
               "overwritten with that result; type_overwriting.py writes nothing else into the program (census). NOT proved -- "
               "bounded: 'exactly one' for an overwritten type argument of an instantiation (that branch is abstracted), "
               "unrelatedness of the new type (C09), message content, that the translation changes, that a correct checker "
-              "must reject, and the nothing-injected case. One defect repaired in /repo; four check names are known findings."),
+              "must reject, and the nothing-injected case. One defect repaired in /repo; four check names are known findings. Also verified here (second group): the contract of the irrelevant-type search (C09's proof part: result in neither complete search list, never the top type, a re-instantiated generic class only if is_subtype answers False both ways) and a census that every declaration object the dependency analysis invents carries the reserved name RET by which the mutation excludes it from the candidates."),
         note=("trusted: slice-mode havoc, find_irrelevant_type does not modify the program, the syntactic census; bounded: same "
               "program set as C03 x RNG seeds of the mutation; 'must reject' is approximated (three-valued), decided by javac "
               "only for a budgeted Java subset"),
